@@ -23,6 +23,7 @@ type concScn struct {
 	N     int    `json:"n"`
 	Kind  string `json:"kind"`  // pull | push | mixed
 	Same  bool   `json:"same"`  // identical targets (all sessions write to the same destination)
+	Prior bool   `json:"prior"` // every destination already holds an earlier version (one local change) of the larger files
 	Procs int    `json:"procs"` // GOMAXPROCS
 	Seed  int64  `json:"seed"`
 	Wire  bool   `json:"wire"` // distinct targets: record every session's complete transcript through its own tap proxy (RsyncTrace.tla)
@@ -33,6 +34,7 @@ type concObs struct {
 	N       int      `json:"n"`
 	Kind    string   `json:"kind"`
 	Same    bool     `json:"same"`
+	Prior   bool     `json:"prior"`
 	Procs   int      `json:"procs"`
 	SoloOK  bool     `json:"solook"`
 	Results []string `json:"results"` // per session: ok | err: ... | hung
@@ -78,7 +80,7 @@ func concHandler(w *workerCtx, line []byte) (any, error) {
 	if s.Procs > 0 {
 		defer runtime.GOMAXPROCS(runtime.GOMAXPROCS(s.Procs))
 	}
-	obs := &concObs{ID: s.ID, N: s.N, Kind: s.Kind, Same: s.Same, Procs: s.Procs, Results: []string{}, Equal: []bool{}}
+	obs := &concObs{ID: s.ID, N: s.N, Kind: s.Kind, Same: s.Same, Prior: s.Prior, Procs: s.Procs, Results: []string{}, Equal: []bool{}}
 	base := filepath.Join(w.dir, fmt.Sprintf("conc%d", s.ID))
 	defer func() { fstree.MakeWritable(base); os.RemoveAll(base) }()
 	src := filepath.Join(base, "src")
@@ -109,6 +111,31 @@ func concHandler(w *workerCtx, line []byte) (any, error) {
 		os.MkdirAll(d, 0o755)
 		mods = append(mods, rsyncd.Module{Name: fmt.Sprintf("up%d", i), Path: d, Writable: true})
 	}
+	// prior fills a destination with earlier versions of the files of 5000 bytes and more
+	prior := func(d string) {
+		if !s.Prior || s.Same { // (distinct targets only)
+			return
+		}
+		os.MkdirAll(filepath.Join(d, "d", "e"), 0o755)
+		for i := 0; i < 24; i++ {
+			sz := sizes[i%len(sizes)]
+			if sz < 5000 {
+				continue
+			}
+			p := filepath.Join(d, fmt.Sprintf("f%02d", i))
+			if i%3 == 1 {
+				p = filepath.Join(d, "d", fmt.Sprintf("g%02d", i))
+			} else if i%3 == 2 {
+				p = filepath.Join(d, "d", "e", fmt.Sprintf("h%02d", i))
+			}
+			os.WriteFile(p, fstree.Edit(fstree.Content(100+i, sz), fmt.Sprintf("rep:%d:%d", 1000+97*i, 40)), 0o644)
+			t := time.Unix(1_500_000_000, 0)
+			os.Chtimes(p, t, t)
+		}
+	}
+	for i := 0; i < nDst; i++ {
+		prior(filepath.Join(base, fmt.Sprintf("up%d", i)))
+	}
 	srv, err := rsyncd.NewServer(mods, rsyncd.WithStderr(discard{}), rsyncd.DontRestrict())
 	if err != nil {
 		return nil, err
@@ -125,6 +152,7 @@ func concHandler(w *workerCtx, line []byte) (any, error) {
 	// the result a session produces when it runs alone
 	soloPull := filepath.Join(base, "solo-pull")
 	os.MkdirAll(soloPull, 0o755)
+	prior(soloPull)
 	logb := &capBuf{}
 	e1 := runCmd(logb, []string{"-rlt", url + "src/", soloPull + "/"})
 	e2 := runCmd(logb, []string{"-rlt", src + "/", url + fmt.Sprintf("up%d/", s.N)})
@@ -160,6 +188,7 @@ func concHandler(w *workerCtx, line []byte) (any, error) {
 		} else {
 			dests[i] = filepath.Join(base, fmt.Sprintf("pull%d", k))
 			os.MkdirAll(dests[i], 0o755)
+			prior(dests[i])
 			args = []string{"-rlt", url + "src/", dests[i] + "/"}
 		}
 		if wire {
